@@ -532,6 +532,13 @@ def batches(tier, seed):
     for w in (2, 4, 8):
         b.append((f"warn/{w}", ("warn", w, tier, seed)))
     b.append(("misc", ("misc", None, tier, seed)))
+    # dtype histories: one child per (dtype, route) that is the FIRST to convert each unit pair in that process
+    thorough = tier == "thorough"
+    for fdt in HIST_FIRST_DT_QUICK + (HIST_FIRST_DT_MORE if thorough else []):
+        for fr in HIST_FIRST_QUICK + (HIST_FIRST_MORE if thorough else []):
+            if np.dtype(fdt).kind == "c" and ":" in fr and fr.split(":")[1] not in CPLX_OK:
+                continue
+            b.append((f"hist/{fdt}/{fr}", ("hist", [fdt, fr], tier, seed)))
     return b
 
 
@@ -548,6 +555,8 @@ def worker(batch, rec):
             run_binary(unyt, rec, arg, tier, r)
         elif kind == "warn":
             run_warn(unyt, rec, arg, tier, r)
+        elif kind == "hist":
+            run_history(unyt, rec, arg[0], arg[1], tier, seed, r)
         else:
             run_misc(unyt, rec, tier, r)
     finally:
@@ -1224,6 +1233,266 @@ def run_misc(unyt, rec, tier, r):
     rec.sample({"batch": "misc", "ctor": "unyt_array([q0, q1]) with quantities in different units"})
 
 
+# ------------------------------------------------------------------ dtype histories within one process
+# Conversion machinery may remember things per unit pair (factor, offset, dtype).  Every other batch converts one dtype
+# per forked child, so nothing it observes has a past.  Here one child converts an ordered unit pair FIRST with one dtype
+# through one route and THEN with every dtype through every route; each later result is still owed the exactly converted
+# value rounded to its own float type.  A failing observation is repeated by a pristine twin (vf/monitors/c17_pristine.py)
+# to decide whether it depends on the past.
+# (source, destination, destination is the mks base equivalent of the source, usable as operands of one binary ufunc)
+HIST_PAIRS_QUICK = [("m", "km", False, True), ("ft", "mile", False, True), ("cm", "inch", False, True), ("g", "lb", False, True),
+                    ("ft", "m", True, True), ("lb", "kg", True, True), ("km/hr", "m/s", True, True), ("degF", "K", True, False),
+                    ("min", "hr", False, True)]
+HIST_PAIRS_MORE = [("inch", "cm", False, True), ("mile", "km", False, True), ("km", "m", True, True), ("min", "s", True, True),
+                   ("mm", "m", True, True), ("degC", "degF", False, False), ("delta_degF", "delta_degC", False, False),
+                   ("J", "erg", False, True), ("T", "G", False, False), ("yd", "inch", False, True),
+                   ("g/cm**3", "kg/m**3", True, True), ("hr", "min", False, True), ("inch", "m", True, True), ("mile", "m", True, True)]
+HIST_FIRST_DT_QUICK = ["f2", "f4", "i2", "i4", "f8", "c16", "i8", "u8"]
+HIST_FIRST_DT_MORE = ["c8", "u2", "u4", "i1", "u1"]
+HIST_FIRST_QUICK = ["to", "in_units", "to_value", "convert_to_units", "in_base", "convert_to_base", "ufunc:add",
+                    "ufunc:floor_divide", "Unit.get_conversion_factor"]
+HIST_FIRST_MORE = ["to(Unit)", "in_mks", "convert_to_mks", "ufunc:subtract", "ufunc:maximum", "ufunc:less", "ufunc:hypot",
+                   "ufunc:remainder", "inplace-op:add", "out:add", "scalar:add"]
+HIST_BASE_ROUTES = ("in_base", "convert_to_base", "in_mks", "convert_to_mks")
+HIST_UFS = ["add", "subtract", "maximum", "less", "floor_divide", "true_divide", "hypot", "remainder"]
+
+
+def is_narrow(dt):
+    return comp_size(dt) <= 4
+
+
+class CapRec:
+    """recorder with the interface of core.Rec that only collects: the history monitor decides afterwards under which key
+    a violation is reported"""
+
+    def __init__(self):
+        self.oks, self.viol, self.notes, self.counts, self.reached = [], [], [], [], []
+
+    def ok(self, cell=None, n=1):
+        self.oks.append((cell, n))
+
+    def violation(self, key, desc, case=None):
+        self.viol.append((key, desc, case))
+
+    def note(self, key, n=1):
+        self.notes.append((key, n))
+
+    def count(self, name, n=1):
+        self.counts.append((name, n))
+
+    def sample(self, *a, **k):
+        pass
+
+    def reach(self, name):
+        self.reached.append(name)
+
+
+_HIST_EXP = {}
+
+
+def hist_eval(unyt, rec, case):
+    """run and judge one observation described by plain data (also executed, unchanged, by the pristine twin)"""
+    if case[0] == "conv":
+        _, route, dt, form, src, dst, fvals = case
+        d = np.dtype(dt)
+        base = route in HIST_BASE_ROUTES
+        sub = ("base" if base else "conv") + (":inplace" if FAMILY[route] == "convert_to_units" else ":copy")
+        state = {"dtype_bad": set(), "value_bad": set()}
+        for (obj, idxs) in build(unyt, form, dt, fvals, src):
+            res, exc, ws = observe(lambda: call_route(unyt, route, obj, dst))
+            rec.count("calls:" + FAMILY[route])
+            rec.reach("route:" + route)
+            if exc is not None:
+                if d.kind in "iu" and d.itemsize == 1 and FAMILY[route] == "convert_to_units":
+                    rec.note(f"refused:8bit:{route}:{type(exc).__name__}")
+                    rec.ok(("refused-8bit", route, dt, form))
+                    rec.count("evals:refusal")
+                    continue
+                rec.violation(f"C17:{FAMILY[route]}:raises:{cls_of(dt)}:{type(exc).__name__}",
+                              f"{route} ({form}) of {dt} data {src}->{dst} raised {type(exc).__name__}: {str(exc)[:120]}",
+                              {"route": route, "dtype": dt, "form": form, "from": src, "to": dst})
+                continue
+            label = str(res.units) if (base and hasattr(res, "units")) else dst
+            if base and label != dst:
+                rec.note(f"base-label-differs:{src}:{label}")
+            ck = (dt, src, label, tuple(repr(v) for v in fvals))
+            if ck not in _HIST_EXP:
+                try:
+                    _HIST_EXP[ck] = (conv_expect(fvals, src, label), X.ratio_exact(src, label))
+                except X.Unparsed:
+                    _HIST_EXP[ck] = None
+                    rec.note(f"unit-label-not-interpreted:{label}")
+            if _HIST_EXP[ck] is None:
+                continue
+            exps_all, ratio = _HIST_EXP[ck]
+            ok = judge_conversion(rec, route, dt, form, src, label, res, idxs, exps_all, 8, ratio, state, fvals)
+            rec.count("evals:" + sub)
+            if ok:
+                rec.ok((route, dt, src, label, form))
+    elif case[0] == "bin":
+        _, uf, form, d0, d1, u0, u1, av, bv = case
+        s0, _ = X.unit_exact(u0)
+        s1, _ = X.unit_exact(u1)
+        A = [tuple(None if c is None else c * s0 for c in as_fr(v)) for v in av]
+        B = [tuple(None if c is None else c * s1 for c in as_fr(v)) for v in bv]
+        do_binary(unyt, rec, uf, form, d0, d1, u0, u1, av, bv, A, B, s0, s1, 16)
+    else:
+        raise ValueError(case[0])
+
+
+def _pristine_eval(case):
+    import unyt
+    cap = CapRec()
+    hist_eval(unyt, cap, case)
+    return [(k, d) for (k, d, _) in cap.viol]
+
+
+def hist_key(key, first_dt):
+    return "C17:history:" + key.split(":", 1)[1] + f":after-{cls_of(first_dt)}-first"
+
+
+class History:
+    """one process, many unit pairs; per pair a first (dtype, route) and then everything else"""
+
+    def __init__(self, unyt, rec, first_dt, first_route, twin):
+        self.unyt, self.rec, self.first_dt, self.first_route, self.twin = unyt, rec, first_dt, first_route, twin
+        self.memo = {}          # (base key, pair) -> None (not history dependent) or text of what the twin saw
+        self.log = []
+
+    def step(self, case, pair, later_dt, is_first):
+        rec = self.rec
+        cap = CapRec()
+        hist_eval(self.unyt, cap, case)
+        what = f"{later_dt}:{case[1] if case[0] == 'conv' else 'np.' + case[1] + '/' + case[2]}"
+        pref = ("history", cls_of(self.first_dt), self.first_route)
+        for cell, n in cap.oks:
+            rec.ok(pref + tuple(cell) if cell is not None else None, n)
+        nev = 0
+        for name, n in cap.counts:
+            rec.count("hist:" + name, n)
+            if name.startswith("evals:") and name.count(":") == 1 or name in ("evals:conv:copy", "evals:conv:inplace", "evals:base:copy", "evals:base:inplace"):
+                nev += n
+        for key, n in cap.notes:
+            rec.note("hist:" + key, n)
+        for name in cap.reached:
+            rec.reach("hist:" + name)
+        if not is_first and nev:
+            rec.count("hist:evals:%s->%s" % ("narrow" if is_narrow(self.first_dt) else "wide", "narrow" if is_narrow(later_dt) else "wide"), nev)
+        done = set()
+        for key, desc, vcase in cap.viol:
+            if key in done:
+                continue
+            done.add(key)
+            mk = (key, pair)
+            if mk not in self.memo:
+                try:
+                    seen = dict(self.twin.run(case))
+                    rec.count("hist:control-runs")
+                    if key in seen:
+                        self.memo[mk] = None
+                    else:
+                        self.memo[mk] = ("holds" if not seen else "fails differently (" + ", ".join(sorted(seen)) + ")")
+                except Exception as e:          # noqa: BLE001 - no control: the observation is reported as it was made
+                    rec.count("hist:control-failed")
+                    rec.note("hist:control-failed:" + type(e).__name__)
+                    self.memo[mk] = "could not be repeated (control unavailable)"
+            verdict = self.memo[mk]
+            if verdict is None:
+                rec.count("hist:violations:not-history-dependent")
+                rec.violation(key, desc + " [seen by the history monitor; the same call in a pristine process fails the same way]", vcase)
+            else:
+                rec.count("hist:violations:history-dependent")
+                hist = f"{self.first_dt}:{self.first_route}" + (" ... " + ", ".join(self.log[-3:]) if self.log else "")
+                rec.violation(hist_key(key, self.first_dt),
+                              desc + f" | HISTORY: earlier in this process the pair {pair[0]}->{pair[1]} was converted as [{hist}]; "
+                              f"the same call in a process that never converted anything {verdict}",
+                              dict(vcase or {}, first_dtype=self.first_dt, first_route=self.first_route, pair=list(pair),
+                                   replay=core.jsonable(case)))
+        self.log.append(what)
+        return not cap.viol
+
+
+def hist_conv_vals(dt, tier, seed):
+    r = core.rng(seed, "hist-values", dt)
+    vals = values_for(dt, r, 6 if tier == "thorough" else 3)
+    if tier != "thorough":
+        vals = pick(vals, 9)
+    fin = [v for v in vals if not (isinstance(v, float) and (v != v or v in (float("inf"), float("-inf"))))]
+    scal = [fin[k] for k in (2, 4) if k < len(fin)]
+    return vals, scal
+
+
+def hist_first_case(first_route, dt, src, dst, base, binok, tier, seed):
+    """the first observation of a pair, or None when this route cannot start a history on this pair"""
+    if first_route.split(":")[0] in ("ufunc", "inplace-op", "out", "scalar"):
+        form, uf = first_route.split(":")
+        if not binok or (np.dtype(dt).kind == "c" and uf not in CPLX_OK):
+            return None
+        r = core.rng(seed, "hist-bvals", dt, dt)
+        return ("bin", uf, form, dt, dt, dst, src, bvals(dt, r, 6, False), bvals(dt, r, 6, True))
+    if first_route in HIST_BASE_ROUTES and not base:
+        return None
+    vals, _ = hist_conv_vals(dt, tier, seed)
+    return ("conv", first_route, dt, "arr1d", src, dst, vals)
+
+
+def run_history(unyt, rec, first_dt, first_route, tier, seed, r):
+    from vf.monitors import c17_pristine
+    thorough = tier == "thorough"
+    twin = c17_pristine.Pristine(_pristine_eval)        # forked before this process converts anything
+    try:
+        # thorough: the quick pairs plus a per-batch draw from the wider list (every batch draws differently, so over the
+        # first-dtype x first-route grid every pair is started by many kinds of first conversion)
+        pairs = HIST_PAIRS_QUICK + (r.sample(HIST_PAIRS_MORE, 6) if thorough else [])
+        routes = ["to", "in_units", "to_value", "convert_to_units"] + (["to(Unit)"] if thorough else [])
+        broutes = ["in_base", "convert_to_base"] + (["in_mks", "convert_to_mks"] if thorough else [])
+        forms = ["arr1d", "quantity", "strided"] if thorough else ["arr1d", "quantity"]
+        H = History(unyt, rec, first_dt, first_route, twin)
+        for (src, dst, base, binok) in pairs:
+            pair = (src, dst)
+            H.log = []
+            # ---- the first conversion of this ordered pair in this process
+            if first_route == "Unit.get_conversion_factor":
+                res, exc, ws = observe(lambda: unyt.Unit(src).get_conversion_factor(unyt.Unit(dst), np.dtype(first_dt)))
+                rec.note("hist:first-by-get_conversion_factor:" + ("raised:" + type(exc).__name__ if exc is not None else "returned"))
+            else:
+                case = hist_first_case(first_route, first_dt, src, dst, base, binok, tier, seed)
+                if case is None:
+                    rec.note(f"hist:first-route-not-applicable:{first_route}:{src}->{dst}")
+                    continue
+                H.step(case, pair, first_dt, True)
+            rec.count("hist:first-steps")
+            rec.reach("hist-first:" + first_route)
+            # ---- then every dtype through every route on the same pair
+            later = dts(tier)
+            r.shuffle(later)
+            for dt in later:
+                vals, scal = hist_conv_vals(dt, tier, seed)
+                todo = [("conv", rt, dt, form, src, dst, vals if form not in ("quantity", "0d") else scal)
+                        for rt in routes + (broutes if base else []) for form in forms]
+                if binok:
+                    for d0 in ([dt, r.choice(["f8", "i4", "f2", "c8"])] if thorough and r.random() < 0.5 else [dt]):
+                        rb = core.rng(seed, "hist-bvals", d0, dt)
+                        av, bv = bvals(d0, rb, 6, False), bvals(dt, rb, 6, True)
+                        m = min(len(av), len(bv))
+                        for uf in HIST_UFS:
+                            if "c" in (np.dtype(d0).kind, np.dtype(dt).kind) and uf not in CPLX_OK:
+                                continue
+                            bforms = ["ufunc"] + (["operator"] if uf in ("add", "less", "floor_divide") else [])
+                            if thorough:
+                                bforms = ["ufunc", r.choice(["scalar", "arr-q", "q-arr"] + (["operator"] if uf in OPER else [])
+                                                            + (["out", "out-float"] if uf not in COMPARE else [])
+                                                            + (["inplace-op"] if uf in INPLACE_OP and uf in OPER else []))]
+                            todo += [("bin", uf, bf, d0, dt, dst, src, av[:m], bv[:m]) for bf in bforms]
+                r.shuffle(todo)
+                for case in todo:
+                    H.step(case, pair, dt, False)
+        rec.count("hist:control-twin-runs", twin.runs)
+        rec.sample({"batch": "history", "first": [first_dt, first_route], "pairs": [p[:2] for p in pairs], "forms": forms})
+    finally:
+        twin.close()
+
+
 # ------------------------------------------------------------------ evidence
 def extra(tier, seed, results):
     counters = {}
@@ -1236,7 +1505,15 @@ def extra(tier, seed, results):
                 "evals:equiv:inplace", "evals:agree", "evals:warn-required", "evals:binary", "evals:binary:call",
                 "evals:binary:out", "evals:ctor-list", "passive_evals"]
     deciding += [f"evals:warn-required:{f}" for f in ("in_units", "convert_to_units", "in_base", "to_equivalent", "convert_to_equivalent")]
+    # history sub-monitors (dtype histories within one process): each must have judged something, in both orders, and
+    # every kind of first route must have started at least one history
+    hist_deciding = ["hist:evals:conv:copy", "hist:evals:conv:inplace", "hist:evals:base:copy", "hist:evals:base:inplace",
+                     "hist:evals:binary", "hist:evals:narrow->wide", "hist:evals:wide->narrow", "hist:evals:narrow->narrow",
+                     "hist:evals:wide->wide", "hist:first-steps"]
+    deciding += hist_deciding
+    first_routes = HIST_FIRST_QUICK + (HIST_FIRST_MORE if tier == "thorough" else [])
     zero = [k for k in deciding if not counters.get(k)]
+    zero += ["hist-first:" + fr for fr in first_routes if "hist-first:" + fr not in reached]
     broken = [bid for bid, rr in results if rr.get("status") != "ok"]
     if zero and not broken:
         raise core.Inconclusive("sub-monitors-evaluated-0-times:" + ",".join(zero))
@@ -1244,7 +1521,9 @@ def extra(tier, seed, results):
     ufs = UF_QUICK + UF_MORE
     want_uf = [f"ufunc:{u}:ufunc" for u in ufs]
     unreached = [x for x in want_routes + want_uf + ["ctor-list"] if x not in reached]
+    unreached += ["hist:ufunc:%s:ufunc" % u for u in HIST_UFS if "hist:ufunc:%s:ufunc" % u not in reached]
     return {"sub_monitor_evaluations": {k: counters.get(k, 0) for k in deciding},
+            "history_control": {k[5:]: v for k, v in counters.items() if k.startswith("hist:control") or k.startswith("hist:violations")},
             "entry_point_calls": {k[4:]: v for k, v in counters.items() if k.startswith("tap:")},
             "unreached": unreached,
             "dtypes": dts(tier)}
